@@ -812,12 +812,12 @@ def _run_child(plan):
         elif status != 0:
             # ---- A: refused
             if out_kinds:
-                ok = io_fault and Jx is not None and (Jx + os.linesep).startswith(out)
+                ok = io_fault and Jx is not None and is_partial_of(out, Jx)
                 if not ok:
                     add("C20/refused-but-stdout-data", {"clause": "A-stdout", "io_fault": io_fault},
                         dict(ctx, stdout_kinds=out_kinds, stdout_head=out[:200]))
             for p, data in sorted(new_files.items()):
-                ok = io_fault and Jx is not None and Jx.encode("utf-8").startswith(data)
+                ok = io_fault and Jx is not None and is_partial_of(data.decode("utf-8", "replace"), Jx)
                 if not ok:
                     add("C20/refused-but-file", {"clause": "A-file", "io_fault": io_fault},
                         dict(ctx, path=p, content_head=data[:120].decode("utf-8", "replace")))
@@ -832,13 +832,13 @@ def _run_child(plan):
                     dict(ctx, api_exception=twin_exc, stdout_head=out[:200]))
             else:
                 if target is None:
-                    if out != Jx + os.linesep:
+                    if not same_json(out, Jx):
                         add("C20/served-mismatch", {"clause": "B-stdout", "paranoia": req["paranoia"]},
                             dict(ctx, diff=_first_diff(out, Jx + os.linesep)))
                     if new_files:
                         add("C20/served-extra-file", {"clause": "B-extra-file"}, dict(ctx, new_files=sorted(new_files)))
                 else:
-                    if served_text is None or served_text != Jx:
+                    if served_text is None or not same_json(served_text, Jx):
                         add("C20/served-mismatch", {"clause": "B-file", "paranoia": req["paranoia"]},
                             dict(ctx, diff=_first_diff(served_text or "", Jx), new_files=sorted(new_files)))
                     if out_kinds:
@@ -940,6 +940,27 @@ def _run_child_raw(plan):
         vfs.uninstall()
     new_files = {p: v[3].decode("utf-8", "replace") for p, v in f1.items() if v[0] == "file" and v[2] == "cli"}
     return {"status": status, "stdout": out, "stderr": err, "new_files": new_files}
+
+
+def same_json(text, want_text):
+    """The property speaks of JSON identical to the API result: the same JSON VALUE and nothing else on the channel.
+    Indentation, key order inside objects and a trailing newline are presentation, not content."""
+    if text == want_text or text == want_text + os.linesep:
+        return True
+    try:
+        return json.loads(text) == json.loads(want_text)
+    except (ValueError, TypeError):
+        return False
+
+
+def _squash(t):
+    return "".join(t.split())
+
+
+def is_partial_of(text, want_text):
+    """Under an injected I/O fault a partial output may exist, but only as a prefix of the right output
+    (compared ignoring whitespace, so that a different but legitimate layout does not matter)."""
+    return (want_text + os.linesep).startswith(text) or _squash(want_text).startswith(_squash(text))
 
 
 def _first_diff(a, b):
